@@ -19,12 +19,22 @@ Definition same_res {A : Type} (x y : res A) : Prop :=
 
 (* ------------------------------------------------------------------ close reasons *)
 
+Lemma reason_eqb_sym a b : reason_eqb a b = reason_eqb b a.
+Proof. destruct a, b; reflexivity. Qed.
+
+Lemma existsb_reason_flip r rs : existsb (fun x => reason_eqb x r) rs = existsb (reason_eqb r) rs.
+Proof.
+  induction rs as [|x t IH]; cbn [existsb]; [reflexivity|]. rewrite IH, (reason_eqb_sym x r). reflexivity.
+Qed.
+
+(** The membership test may be written either way round ([contains(&reason)], [iter().any(|r| *r == reason)]), with or without an
+    early return: the proof normalises the test and then only does case analysis. *)
 Theorem gen_add_close_reason_eq rs r :
   gen_add_close_reason rs r = bind (add_reason rs r) (fun rs' => Ok (rs', tt)).
 Proof.
-  unfold gen_add_close_reason, add_reason.
-  destruct (existsb (reason_eqb r) rs); cbn [negb bind]; [reflexivity|].
-  destruct (push_reason rs r); reflexivity.
+  unfold gen_add_close_reason, add_reason. cbv zeta. rewrite ?existsb_reason_flip.
+  destruct (existsb (reason_eqb r) rs); cbn [negb bind]; try reflexivity.
+  all: destruct (push_reason rs r); reflexivity.
 Qed.
 
 Theorem gen_explain_eq r : gen_explain r = explain r.
